@@ -14,6 +14,22 @@ claimed = {
          "Decides structural necessary conditions only: the source is touched only through full-read primitives or transparent Read wrappers; every source/seek/decompressor/callback error is consulted on every path and never becomes success or a clean io.EOF unless classified by errors.Is(io.EOF|io.ErrUnexpectedEOF); read counts feed diagnostics only. Does not decide third-party decoder behaviour or the prefix clause.",
          "Trusts go/types, go/ssa, VTA call graph and this checker; zstd/lz4 decoders assumed to propagate source errors.",
          "DESIGN.md section 3 C15"),
+ "C10": ("bounded-input taint+guard dataflow over go/ssa with whole-program field/param/result summaries (E2); error-flow dataflow for decode errors (E3); who-may-call rule for abort calls (E5)",
+         "Decides structural necessary conditions only: every input-decoded integer reaching a slice bound, index or allocation size is upper-bounded (comparison or validating callee) on every CFG path; no panic/exit call; every decode/validation error is consulted and propagated. Decides presence of a bound, not its tightness; does not decide absence of all panics, termination, or memory use.",
+         "Trusts go/types, go/ssa, VTA call graph and this checker. One named suppression (NextInto re-read of a length already validated by loadChunk) documented in DESIGN.md 7.1. Third-party decoders not analysed.",
+         "DESIGN.md section 3 C10, 7.1"),
+ "C13": ("effect / who-may-call rules over go/ssa and typed ASTs (E5): map-range bodies, ambient inputs, package-level state",
+         "Decides structural necessary conditions only: no map-iteration order, clock, randomness, environment, CPU count, goroutine or select reaches writer code, and go/mcap has no mutable package-level state. Does not decide determinism of the third-party compressors.",
+         "Trusts go/types, go/ssa, VTA call graph and this checker; zstd/lz4 encoders assumed deterministic.",
+         "DESIGN.md section 3 C13"),
+ "C18": ("E2 bounded-input dataflow + minimum-length rule for fixed-offset header reads; E3 error-flow (writer, source, callbacks, sql rows.Err typestate); E5 abort calls",
+         "Decides structural necessary conditions only: the converters contain no process-exit call, bound every bag-decoded integer before using it as a slice bound/size, test header value lengths before fixed-offset reads, and propagate read/write/close/database errors. Does not decide conversion fidelity or ordering.",
+         "Trusts go/types, go/ssa, VTA call graph and this checker; go-sqlite3, lz4 and bzip2 not analysed.",
+         "DESIGN.md section 3 C18"),
+ "C19": ("call-graph cycle detection with termination-guard recognition; ordering rule for slice bounds from independent searches; E3/E5",
+         "Decides structural necessary conditions only: every recursion over the untrusted definition carries a visited-set or depth guard, bracket positions are ordered before slicing, only RE2 regexps are used, no abort calls, nested errors are propagated. Does not decide that the returned tree is the right one.",
+         "Trusts go/types, go/ssa, VTA call graph and this checker.",
+         "DESIGN.md section 3 C19"),
 }
 na_reason = "check not built yet (build in progress, see DESIGN.md section 7.2)"
 
